@@ -50,6 +50,7 @@ package ast
 //@   ensures[in-range] 0 <= curPos[self] && curPos[self] <= curLen[self]
 //@   ensures[skipped-are-before] forall(i, 0 <= i && i < curPos[self] ==> before(curDesc[self], sel(curSeq[self], i), str(arg0)))
 //@   ensures[lands-at-or-after] curPos[self] < curLen[self] ==> !before(curDesc[self], curSeq[self][curPos[self]], str(arg0))
+//@   ensures[rest-at-or-after] forall(i, curPos[self] <= i && i < curLen[self] ==> !before(curDesc[self], sel(curSeq[self], i), str(arg0)))
 
 //@ func (SetCursor).IsValid
 //@   pure
